@@ -74,6 +74,8 @@ type Case struct {
 	Spans   []SpanSpec    `json:"spans,omitempty"`  // trace: the spans the fake service returns
 	Traces  [][]TraceSpec `json:"traces,omitempty"` // search / searchql: batches of traces
 	JSpans  []JSpan       `json:"jspans,omitempty"` // trace: observed JSONSpan values (output)
+	Fps     []string      `json:"fps,omitempty"`    // optstreams: fingerprint of every stream (decimal)
+	Runs    [][][3]int    `json:"runs,omitempty"`   // optstreams: per channel batch the runs (stream, count, 1 = io.EOF markers)
 	Blbls   [][][2]string `json:"blbls"` // Prometheus kinds: label slice of every batch (= series), hex
 	Order   []string  `json:"order"` // vector: fingerprints in the order of the result array (read back through the "id" label)
 	Out     string    `json:"out"`   // hex of the concatenated chunks
@@ -421,6 +423,9 @@ type planPlugin struct{}
 var curProc *scriptedProc
 
 func (planPlugin) Plan(script *logql_parser.LogQLScript) (shared.RequestProcessorChain, error) {
+	if curChain != nil { // optstreams: the real ResponseOptimizerPlanner between the scripted source and the encoder
+		return shared.RequestProcessorChain{curChain}, nil
+	}
 	if curProc == nil {
 		return nil, fmt.Errorf("no scripted processor")
 	}
@@ -1724,6 +1729,10 @@ func run(c *Case) {
 		runNum(c)
 		return
 	}
+	if c.Kind == "optstreams" {
+		runOpt(c)
+		return
+	}
 	if tempoKinds[c.Kind] {
 		var body string
 		c.Panic = hx.Catch(func() { body = runTempo(c) })
@@ -1878,6 +1887,16 @@ func main() {
 	}
 	for i := range cases {
 		out.Put(cases[i])
+	}
+	// the stage in front of the streams encoder: small regrouping cases and a few that reach its 3000-row window
+	nbig := 5
+	if f.N >= 10000 {
+		nbig = 25
+	}
+	for _, oc := range genOptCases(hx.Rand(f.Seed+977), 10+f.N/50, nbig) {
+		oc := oc
+		run(&oc)
+		out.Put(oc)
 	}
 	// overlapping requests: every case of these kinds is observed a second time while another request
 	// of the same family is served inside each of its writes; the body must still be its own document
